@@ -232,6 +232,22 @@ def solve_triangular_safe(a, b, lower=False):
         return scipy.linalg.solve_triangular(a, b, lower=lower)
 
 
+def _empty_meta(meta):
+    """``meta`` with zero elements (unchanged when it is 0-d or already empty).
+
+    Some nodes carry a one-element ``_meta`` (a keepdims reduction of the empty
+    input meta, ``expand_dims`` of a 0-d meta).  ``func`` may be a user block
+    function, which must never be handed a non-empty block before the graph is
+    executed.
+    """
+    if is_arraylike(meta) and getattr(meta, "ndim", 0) and getattr(meta, "size", 0):
+        try:
+            return meta[(slice(0, 0),) * meta.ndim]
+        except (TypeError, IndexError, ValueError):
+            pass
+    return meta
+
+
 def compute_meta(func, _dtype, *args, **kwargs):
     """Compute metadata for an operation."""
     from dask_array._expr import ArrayExpr
@@ -240,10 +256,11 @@ def compute_meta(func, _dtype, *args, **kwargs):
         warnings.simplefilter("ignore", category=RuntimeWarning)
 
         args_meta = [
-            (x._meta if isinstance(x, ArrayExpr) else meta_from_array(x) if is_arraylike(x) else x) for x in args
+            (_empty_meta(x._meta) if isinstance(x, ArrayExpr) else meta_from_array(x) if is_arraylike(x) else x)
+            for x in args
         ]
         kwargs_meta = {
-            k: (v._meta if isinstance(v, ArrayExpr) else meta_from_array(v) if is_arraylike(v) else v)
+            k: (_empty_meta(v._meta) if isinstance(v, ArrayExpr) else meta_from_array(v) if is_arraylike(v) else v)
             for k, v in kwargs.items()
         }
 
